@@ -176,8 +176,8 @@ pub fn farm_shard(
     rep
 }
 
-const WPOOL_NOTE: &str = " || W-pool generator: amplifications 1..u64::MAX, registry and creator-declared decimals (0..18), fee structures 0..20%, zero / same-denom / other-denom creation and token-factory fees per shard, block times with sub-second parts, scripted 'exodus' episodes (every withdrawable holder of one pool leaves, dust trades, re-seed), degenerate self-hops, routes revisiting pools.";
-const WFARM_NOTE: &str = " || W-farm generator: per-shard farm limits {1,2,3,12}, epoch durations {86400, 129600, 100003, 604800} s, sub-second block times, farms of 1..400 epochs and practically open-ended ones (end up to u64::MAX), budgets from 1000, under-/over-funded creations, positions named with and without the contract's identifier prefix, scripted 'leave and return' episodes (claim, close everything in one LP token - some in pieces -, stay away, re-open, claim).";
+const WPOOL_NOTE: &str = " || W-pool generator: amplifications 1..u64::MAX, registry and creator-declared decimals (0..18), fee structures 0..20% (incl. pools charging exactly one kind of fee), zero / same-denom / other-denom creation and token-factory fees per shard, block times with sub-second parts, scripted 'exodus' episodes (every withdrawable holder of one pool leaves, dust trades, re-seed), degenerate self-hops, routes revisiting pools.";
+const WFARM_NOTE: &str = " || W-farm generator: per-shard farm limits {1,2,3,12}, epoch durations {86400, 129600, 100003, 604800} s, sub-second block times, farms of 1..1200 epochs and practically open-ended ones (end up to u64::MAX), budgets from 1000, under-/over-funded creations, positions named with and without the contract's identifier prefix, scripted 'leave and return' episodes (claim, close everything in one LP token - some in pieces -, stay away, re-open, claim). Expansions of 1..5 epochs and of 1000, 2^32, 2^63-1, ~2^64, 2^70 epochs when the owner can pay.";
 
 fn fin(mut rep: Reporter, cfg: &RunCfg, level: &str, rule: &str, assumptions: &[&str], t0: Instant, extra: serde_json::Value) -> i32 {
     crate::pinned::run_pinned(&cfg.property, &mut rep);
@@ -185,12 +185,13 @@ fn fin(mut rep: Reporter, cfg: &RunCfg, level: &str, rule: &str, assumptions: &[
         "C02" => " || forked drain_and_reseed probe every 40th step (existing pool or a fresh high-fee pool: provide, churn swaps, every holder withdraws all, re-seed, leave), each forked message judged by the same clauses.",
         "C07" => " || forked many_farms_probe every 400th step (limit raised to 14, 13 farms with automatic and explicit identifiers on one LP token, three epochs, every staker claims), fed to the ledger and judged by the same clauses.",
         "C11" => " || forked drained_farm_probe every 200th step (fresh pool with one staker, divisible budget claimed to exactly zero, close by owner / contract owner / on the way of a creation, creations up to the limit), judged by the same clauses; transfers compared netted per (from, to, denom).",
-        "C12" => " || every simple route is also re-executed with minimum_receive in {quote, quote-1, quote/2, 0} and another receiver: quoted amount each time.",
-        "C13" => " || every executed route (any shape) is re-run from its pre-state with minimum_receive = delivered (must execute, same output) and delivered + 1 (must fail as a whole).",
+        "C12" => " || every simple route is also re-executed with minimum_receive in {quote, quote-1, quote/2, 0} and another receiver: quoted amount each time; one quote/swap fork in six first switches the pool's deposits and/or withdrawals off.",
+        "C13" => " || every executed route (any shape) is re-run from its pre-state with minimum_receive = delivered (must execute, same output) and delivered + 1 (must fail as a whole); forked lopsided_deposit_probe every 25th step (fresh constant-product pool at a base-unit ratio of 1e-21..1e-14 in either denom order, six off-ratio deposits under tolerances 0.1%..100%).",
         "C17" => " || one toggle in three also restates current values of the other configuration fields in the same message.",
         "C19" => " || kernel amplifications 1..u64::MAX; one case in twelve has reserves at or beyond the 128-bit normalisation edge (refusal path).",
         "C04" => " || transfers compared netted per (kind, from, to, denom).",
-        "C09" => " || the penalty is recovered from what each party ends up with (independent of how transfers are batched).",
+        "C09" => " || the penalty is recovered from what each party ends up with (independent of how transfers are batched); the fee collector is the one configured at the time of the exit, and one forked exit probe in three first re-points it at the owner of an active farm.",
+        "C16" => " || forked reuse_probe every 40th step: a taken explicit identifier requested again (same assets, other order, other assets, other count/type) under the faithful and under a lenient token factory; must be refused and leave the pool unchanged.",
         _ => "",
     };
     let rule = format!("{rule}{probes}{}{}", if rule.contains("W-pool") { WPOOL_NOTE } else { "" }, if rule.contains("W-farm") { WFARM_NOTE } else { "" });
